@@ -104,7 +104,7 @@ CHECKS['C19'] = dict(
     note=_NOTE + '; real processes, pickling and manager proxies are outside (facade order checked with stubs)',
     technique=_T + ' over generated co-routines (bounded preemptions)')
 CHECKS['C20'] = dict(
-    text='The real s3transfer.crt Python layer against a stub awscrt: sequences of 3 (thorough 4) submissions with '
+    text='The real s3transfer.crt Python layer against a stub awscrt: sequences of 3 submissions with '
          'symbolic kinds, outcomes and completion order, 2 permits so that submitters block; permit conservation, '
          'callback order, temp-file handling, shutdown barrier.',
     note=_NOTE + '; stub awscrt stands for the real CRT client (assumes it finishes the request future before on_done)',
